@@ -1446,6 +1446,59 @@ Proof.
     congruence.
 Qed.
 
+(** when Symmetrizer::compute(bool) returns normally -- with or without the S_z repair: iff the repair is in
+    place, or symmetries are ignored, or some spin label is neither up nor down (S_z not offered), or the
+    numbers of up and down indices agree *)
+Definition sz_defined (spins : list nat) : bool :=
+  negb (valid_sz spins) ||
+  Nat.eqb (length (spin_up_indices spins)) (length (sz_down (length spins) (spin_up_indices spins))).
+
+Lemma compute_default_total : forall fz sf ignore spins H,
+  fz = true \/ ignore = true \/ sz_defined spins = true ->
+  exists sy, compute_default fz sf ignore spins H = Done sy.
+Proof.
+  intros fz sf ignore spins H Hc. unfold Symm.compute_default. set (N := length spins).
+  destruct ignore; [eauto|].
+  destruct (sy_offer_ok sf N H (sy_empty K) (p_N N) (p_N_in_range N) (symm_ok_empty sf N H)) as [sy1 [E1 [Hs1 _]]].
+  rewrite E1. cbn [bind]. unfold sz_defined in Hc. fold N in Hc.
+  destruct (valid_sz spins); [|eauto]. cbn [negb orb] in Hc.
+  destruct (Nat.eqb (length (spin_up_indices spins)) (length (sz_down N (spin_up_indices spins)))) eqn:El.
+  - replace (fz && negb true) with false by (destruct fz; reflexivity).
+    unfold Poly.p_Sz at 1, Poly.p_Sz_lists. rewrite El. cbn [bind].
+    match goal with |- context [sy_offer sf N H sy1 ?P] => set (Psz := P) end.
+    assert (EP : p_Sz N (spin_up_indices spins) = Done Psz).
+    { unfold Poly.p_Sz, Poly.p_Sz_lists. rewrite El. reflexivity. }
+    destruct (sy_offer_ok sf N H sy1 Psz (p_Sz_in_range N _ Psz (spin_up_indices_range spins) EP) Hs1) as [sy2 [E2 _]].
+    eauto.
+  - destruct Hc as [->|[Hc|Hc]]; try discriminate. cbn [andb negb]. eauto.
+Qed.
+
+(** conversely: without the repair, a lattice on which S_z is offered but undefined makes compute() throw *)
+Lemma compute_default_throws : forall sf spins H, sz_defined spins = false ->
+  compute_default false sf false spins H = Throws 1.
+Proof.
+  intros sf spins H Hc. unfold Symm.compute_default. set (N := length spins).
+  destruct (sy_offer_ok sf N H (sy_empty K) (p_N N) (p_N_in_range N) (symm_ok_empty sf N H)) as [sy1 [E1 _]].
+  rewrite E1. cbn [bind]. unfold sz_defined in Hc. fold N in Hc.
+  apply orb_false_iff in Hc. destruct Hc as [Hv El]. apply negb_false_iff in Hv. rewrite Hv. cbn [andb].
+  unfold Poly.p_Sz, Poly.p_Sz_lists. rewrite El. reflexivity.
+Qed.
+
+Lemma symmetrize_total : forall fz sf mode spins H,
+  match mode with SymmCustom _ cands => Forall (poly_in_range (length spins)) cands | _ => True end ->
+  match mode with SymmDefault _ => fz = true \/ sz_defined spins = true | _ => True end ->
+  exists sy, symmetrize fz sf mode spins H = Done sy /\ symm_ok sf (length spins) H sy.
+Proof.
+  intros fz sf mode spins H Hm Hc.
+  assert (Hex : exists sy, symmetrize fz sf mode spins H = Done sy).
+  { destruct mode as [| |cands]; cbn [Symm.symmetrize].
+    - apply compute_default_total. destruct Hc as [Hc|Hc]; [left; exact Hc|right; right; exact Hc].
+    - apply compute_default_total. right. left. reflexivity.
+    - unfold Symm.compute_custom.
+      destruct (compute_custom_loop_ok sf (length spins) H cands (sy_empty K) Hm (symm_ok_empty _ _ _)) as [sy [E _]]. eauto. }
+  destruct Hex as [sy E]. exists sy. split; [exact E|]. apply (symmetrize_done fz sf mode spins H sy Hm E).
+Qed.
+
 (** the default candidates shift uniformly *)
 Lemma default_uniform : forall fz sf ignore spins H sy,
   compute_default fz sf ignore spins H = Done sy -> Forall (uniform_shift (length spins)) (sy_ops sy).
@@ -1496,15 +1549,17 @@ Proof.
   destruct IH as [bs E']; [intros x Hx; apply H; right; exact Hx|]. rewrite E'. cbn [bind]. eauto.
 Qed.
 
-(** [analysis_total]: with the S_z repair the whole analysis (symmetrizer, classification, prepare of every
-    c_i and c^+_i) returns normally for every lattice (spin labels), every Hamiltonian polynomial, in
-    every mode (custom candidates with indices in range), with or without the shift test *)
-Theorem analysis_total_gen : k1 <> k0 -> forall sf mode spins H,
+(** [analysis_total]: the whole analysis (symmetrizer, classification, prepare of every c_i and c^+_i)
+    returns normally for every lattice (spin labels), every Hamiltonian polynomial, in every mode (custom
+    candidates with indices in range), with or without the shift test -- provided the S_z repair is in
+    place, or the mode is not the default one, or S_z is defined on the lattice *)
+Theorem analysis_total_cond : k1 <> k0 -> forall fz sf mode spins H,
   match mode with SymmCustom _ cands => Forall (poly_in_range (length spins)) cands | _ => True end ->
-  exists a, analyse true sf mode spins H = Done a.
+  match mode with SymmDefault _ => fz = true \/ sz_defined spins = true | _ => True end ->
+  exists a, analyse fz sf mode spins H = Done a.
 Proof.
-  intros H10 sf mode spins H Hm. unfold Symm.analyse.
-  destruct (symmetrize_ok sf mode spins H Hm) as [sy [E1 [Hr _]]]. rewrite E1. cbn [bind].
+  intros H10 fz sf mode spins H Hm Hc. unfold Symm.analyse.
+  destruct (symmetrize_total fz sf mode spins H Hm Hc) as [sy [E1 [Hr _]]]. rewrite E1. cbn [bind].
   destruct (sc_compute_ok (length spins) (sy_ops sy) Hr) as [c [E2 _]]. rewrite E2. cbn [bind].
   destruct (mapM_total _ _ (prepare_cdag K k1 kadd kopp kzero (length spins) c) (seq 0 (length spins))) as [cd E3].
   { intros i Hi. apply in_seq in Hi. unfold Symm.prepare_cdag, Poly.p_cdag.
@@ -1514,6 +1569,31 @@ Proof.
   { intros i Hi. apply in_seq in Hi. unfold Symm.prepare_c, Poly.p_c.
     apply (prepare_total (length spins) (sy_ops sy) c Hr E2 H10). constructor; [cbn; lia|constructor]. }
   rewrite E4. cbn [bind]. eauto.
+Qed.
+
+Theorem analysis_total_gen : k1 <> k0 -> forall sf mode spins H,
+  match mode with SymmCustom _ cands => Forall (poly_in_range (length spins)) cands | _ => True end ->
+  exists a, analyse true sf mode spins H = Done a.
+Proof.
+  intros H10 sf mode spins H Hm. apply (analysis_total_cond H10 true sf mode spins H Hm).
+  destruct mode; try exact Logic.I. left; reflexivity.
+Qed.
+
+(** without the repair the default analysis throws exactly on the lattices where S_z is offered but undefined *)
+Theorem analysis_throws_iff : k1 <> k0 -> forall sf spins H,
+  (analyse false sf (SymmDefault K) spins H = Throws 1 <-> sz_defined spins = false) /\
+  ((exists a, analyse false sf (SymmDefault K) spins H = Done a) <-> sz_defined spins = true).
+Proof.
+  intros H10 sf spins H.
+  assert (A : sz_defined spins = false -> analyse false sf (SymmDefault K) spins H = Throws 1).
+  { intros Hc. unfold Symm.analyse. cbn [Symm.symmetrize]. rewrite (compute_default_throws sf spins H Hc). reflexivity. }
+  assert (B : sz_defined spins = true -> exists a, analyse false sf (SymmDefault K) spins H = Done a).
+  { intros Hc. apply (analysis_total_cond H10 false sf (SymmDefault K) spins H Logic.I). right; exact Hc. }
+  split; split.
+  - intro E. destruct (sz_defined spins) eqn:Hc; [|reflexivity]. destruct (B eq_refl) as [a Ea]. congruence.
+  - exact A.
+  - intros [a Ea]. destruct (sz_defined spins) eqn:Hc; [reflexivity|]. rewrite (A eq_refl) in Ea. discriminate.
+  - exact B.
 Qed.
 
 End Algebra.
@@ -1667,6 +1747,22 @@ Qed.
 Theorem analysis_total : RING -> k1 <> k0 -> forall sf mode spins H,
   cands_in_range mode (length spins) -> exists a, analyse true sf mode spins H = Done a.
 Proof. intros Hring H10. exact (analysis_total_gen K k0 k1 kadd kmul ksub kopp kzero khalf Hring H10). Qed.
+
+(** the code as it is: the default analysis throws exWrongLabel exactly when every spin label is up or down
+    but the numbers of up and down indices differ (spinless sites, sites with one and sites with two spins);
+    the ignored and custom analyses never throw *)
+Theorem analysis_total_unrepaired : RING -> k1 <> k0 -> forall sf spins H,
+  (analyse false sf (SymmDefault K) spins H = Throws 1 <-> sz_defined spins = false) /\
+  ((exists a, analyse false sf (SymmDefault K) spins H = Done a) <-> sz_defined spins = true) /\
+  (exists a, analyse false sf (SymmIgnore K) spins H = Done a) /\
+  (forall cands, Forall (in_range (length spins)) cands -> exists a, analyse false sf (SymmCustom K cands) spins H = Done a).
+Proof.
+  intros Hring H10 sf spins H.
+  destruct (analysis_throws_iff K k0 k1 kadd kmul ksub kopp kzero khalf Hring H10 sf spins H) as [A B].
+  split; [exact A|]. split; [exact B|]. split.
+  - apply (analysis_total_cond K k0 k1 kadd kmul ksub kopp kzero khalf Hring H10 false sf (SymmIgnore K) spins H); exact Logic.I.
+  - intros cands Hc. apply (analysis_total_cond K k0 k1 kadd kmul ksub kopp kzero khalf Hring H10 false sf (SymmCustom K cands) spins H Hc Logic.I).
+Qed.
 
 End Theorems.
 
